@@ -10,7 +10,8 @@
 //! stdout (ndjson), one record per program (line) and form:
 //!   {"id","line","form":"compiled"|"shaken"|"shaken_fn"|"merged","status":"ok",
 //!    "nconst","arity":[..],"ntypes","caps":[..],"tids":[..],"nbuiltins",
-//!    "entries":[{"fi","l0","keep"}],            wrapper functions and the locals they start with
+//!    "entries":[{"fi","l0","keep"}],            wrapper functions, the locals they start with and
+//!                                               the locals a LATER line of the session relies on
 //!    "fns":[{"fi","code":[{"op":"Constant","a":3},..]},..]}
 //!   or {"id","line","form":"-","status":"rejected"|"nocode"|"panic","msg"} (not a violation).
 #[path = "../vmshared.rs"]
@@ -81,7 +82,14 @@ fn dump_program(j: &J, out: &mut impl Write) {
     for (k, src) in lines.iter().enumerate() {
         let line = k + 1;
         match sess.compile_line(src) {
-            LineResult::Code(l) => {
+            LineResult::Code(mut l) => {
+                // nothing relies on the locals the LAST line of a session leaves behind
+                if line == lines.len() {
+                    l.keep = 0;
+                    if let Some(e) = sess.entries.last_mut() {
+                        e.2 = 0;
+                    }
+                }
                 let bc = sess.program.to_bytecode(Some(l.fi));
                 writeln!(out, "{}", image(id, line, "compiled", &bc, &sess.entries)).unwrap();
                 let r = catch_unwind(AssertUnwindSafe(|| sess.program.to_bytecode_optimized(l.fi)));
